@@ -17,6 +17,7 @@ import CSD.Lemmas.PFCPrefixD
 import CSD.Lemmas.FM11
 import CSD.Lemmas.RPFC9
 import CSD.Lemmas.FM18
+import CSD.Lemmas.PFCRange
 
 namespace CSD.Props.C04
 open CSD
@@ -166,5 +167,29 @@ theorem fmindex_extract_prefix_exact {S : List Str} {L : List FM.Row} {d : FM.Di
             else some (((S.drop (S.countP (fun s => decide (FM.symsOf s < FM.symsOf p)))).take
                           (S.countP (fun s => (FM.symsOf p).isPrefixOf (FM.symsOf s)))).map FM.symsOf)) :=
   FM.extractPrefix_spec hv hd hml p hp hne
+
+/-- **PFC `extractPrefix` is exact** (model of `StringDictionaryPFC::extractPrefix`: `locatePrefix`, then an
+`IteratorDictStringPFC` opened at the in-bucket offset of the left limit — header copied, `offset − 1`
+strings decoded — and drained over `right − left + 1` strings across bucket boundaries): NULL when no member
+starts with the pattern, otherwise exactly the members that start with it, in order; every read stays inside
+the text. For every valid dictionary, every bucket size and every NUL-free pattern. -/
+theorem pfc_extract_prefix_exact (b : Nat) (S : List Str) (hv : validDict S = true) (q : Str) (hq : PFC.nulFree q) :
+    PFC.extractPrefix (PFC.build b S) q =
+      some (if S.filter (isPrefix q) = [] then none else some (S.filter (isPrefix q))) := by
+  obtain ⟨hne, hn, hs, _⟩ := PFC.validDict_facts hv
+  exact PFC.extractPrefix_build b S q hne hn hs hq
+
+/-- Non-vacuity: a two-bucket dictionary whose matches straddle the bucket boundary. -/
+example : PFC.extractPrefix (PFC.build 2 [[0x61], [0x61, 0x62], [0x61, 0x63], [0x62]]) [0x61] =
+    some (some [[0x61], [0x61, 0x62], [0x61, 0x63]]) := by
+  rw [pfc_extract_prefix_exact 2 _ (by decide) _ (by intro c hc; simp at hc; subst hc; decide)]
+  decide
+
+/-- The PFC range-scan model was written against the current text of the C++ functions it mirrors. -/
+theorem pfc_range_models_match_source_text :
+    Generated.body_PFC_extractPrefix = SourceText.body_PFC_extractPrefix ∧
+    Generated.body_PFCIter_ctor = SourceText.body_PFCIter_ctor ∧
+    Generated.body_PFCIter_next = SourceText.body_PFCIter_next ∧
+    Generated.body_PFCIter_decodeNext = SourceText.body_PFCIter_decodeNext := ⟨rfl, rfl, rfl, rfl⟩
 
 end CSD.Props.C04
